@@ -39,8 +39,14 @@ def cases(draw):
                                 "enabled": True, "render": "list"})
         if space["mode"] == "sequential" and sum(p["enabled"] for p in space["params"]) >= 2:
             space["dask"] = False
+    nd_arg = draw(st.booleans())
+    if nd_arg and space["mode"] == "sequential" and not space["dask"] and draw(st.booleans()):
+        # the ndarray-valued argument is itself one of the swept keys: in the runs that vary another key it keeps its configured (ndarray) value
+        space["params"] = space["params"][:2] + [{"key": ARR_KEY, "values": [[1.0, 1.0, 1.0], [3.0, 3.0, 3.0]], "enabled": True, "render": "list"}]
+        if not any(p["enabled"] for p in space["params"][:-1]):
+            space["params"][0]["enabled"] = True
     case = {"space": space, "steps": draw(st.integers(1, 3)), "non_destructive": draw(st.booleans()),
-            "bump": draw(st.sampled_from([1.0, 2.5])), "fail": None, "pre_state": draw(st.booleans()), "ndarray_arg": draw(st.booleans())}
+            "bump": draw(st.sampled_from([1.0, 2.5])), "fail": None, "pre_state": draw(st.booleans()), "ndarray_arg": nd_arg}
     temp_param = next((p for p in space["params"] if p["enabled"] and p["key"] == KEYS[5] and space["mode"] != "custom"), None)
     if temp_param and len(temp_param["values"]) >= 2 and draw(st.booleans()):
         case["fail"] = temp_param["values"][draw(st.integers(0, len(temp_param["values"]) - 1))]
@@ -63,6 +69,9 @@ def _pipeline(case, fail=None):
     return echo_pipeline(extra)
 
 
+ARR_KEY = "pipeline.charge_collection.amut.arguments.arr"
+
+
 def _ndarray_args(cfg):
     grp = cfg.pipeline.charge_collection
     for m in (grp.models if grp is not None else []):
@@ -82,11 +91,17 @@ def _standalone(case, run):
     e1 = pipe["groups"]["charge_collection"][0]["arguments"]
     e1["level"], e1["vec"], e1["other"] = s[KEYS[0]], list(s[KEYS[1]]), s[KEYS[2]]
     pipe["groups"]["charge_measurement"][0]["arguments"]["level"] = s[KEYS[3]]
+    if ARR_KEY in run:
+        next(m for m in pipe["groups"]["charge_collection"] if m["name"] == "amut")["arguments"]["arr"] = [float(x) for x in run[ARR_KEY]]
     det = simple_spec("CMOS", row=2, col=3, quantum_efficiency=s[KEYS[4]])
     det["environment"]["temperature"] = s[KEYS[5]]
     spec = {"detector": det, "pipeline": pipe, "mode": {"kind": "exposure"}, "readout": {"times": _times(case)},
             "non_destructive": case["non_destructive"]}
-    cfg = _ndarray_args(pyx.build(spec))
+    cfg = pyx.build(spec)
+    if ARR_KEY in run:  # a swept value reaches the model as the tuple pyxel passes on, the configured value is an ndarray
+        next(m for m in cfg.pipeline.charge_collection.models if m.name == "amut").arguments["arr"] = tuple(float(x) for x in run[ARR_KEY])
+    else:
+        _ndarray_args(cfg)
     if case["pre_state"]:  # the user's configuration includes whatever state their detector object carried
         cfg.detector._memory["probe_n"] = 40
         cfg.detector.pixel.array = np.full((2, 3), 9.0)
